@@ -1,0 +1,225 @@
+//go:build verif
+
+// Contracts for package psi, checked by /verif/engine (govc). Compiled only with the build tag
+// "verif".
+
+package psi
+
+import (
+	"github.com/Comcast/gots/v2"
+)
+
+// Helpers used by contract clauses.
+func verifForall(lo, hi int, f func(int) bool) bool {
+	for i := lo; i < hi; i++ {
+		if !f(i) {
+			return false
+		}
+	}
+	return true
+}
+
+func verifExists(lo, hi int, f func(int) bool) bool {
+	for i := lo; i < hi; i++ {
+		if f(i) {
+			return true
+		}
+	}
+	return false
+}
+
+func verifFresh(x interface{}) bool       { return true }
+func verifSeparate(a, b interface{}) bool { return true }
+
+func verifSnap(b []byte) []byte {
+	c := make([]byte, len(b))
+	copy(c, b)
+	return c
+}
+
+// ---------------------------------------------------------------- C20: stream types, PMT descriptors
+
+// specLagsEbp: the audio stream types whose presentation lags the EBP.
+func specLagsEbp(code uint8) bool {
+	return code == 0x03 || code == 0x04 || code == 0x0f || code == 0x11 || code == 0x81 || code == 0x87 || code == 0x88
+}
+
+// stOf: the library's stream-type value behind the interface.
+func stOf(t PmtStreamType) pmtStreamType {
+	v, _ := t.(pmtStreamType)
+	return v
+}
+
+func isST(t PmtStreamType) bool {
+	_, ok := t.(pmtStreamType)
+	return ok
+}
+
+//@ func presentationLagsEbp(code uint8) bool
+//@   props C20
+//@   ensures result == specLagsEbp(code)
+//@   modifies nothing
+
+//@ func newPmtStreamType(code uint8, description string, presentationLagsEbp bool) *pmtStreamType
+//@   props C20
+//@   ensures result != nil && fresh(result) && result.code == code && result.description == description && result.presentationLagsEbp == presentationLagsEbp
+//@   modifies nothing
+
+//@ func LookupPmtStreamType(code uint8) PmtStreamType
+//@   props C20
+//@   ensures isST(result) && stOf(result).code == code && len(stOf(result).description) > 0
+//@   ensures stOf(result).presentationLagsEbp == specLagsEbp(code)
+//@   modifies nothing
+//@   loop 1 (rangeindex int)
+//@     invariant -1 <= rangeindex && rangeindex < len(atscPmtStreamTypes)
+//@     decreases len(atscPmtStreamTypes) - rangeindex
+
+//@ func (st pmtStreamType) StreamType() uint8
+//@   props C20
+//@   ensures result == st.code
+//@   modifies nothing
+
+//@ func (st pmtStreamType) StreamTypeDescription() string
+//@   props C20
+//@   ensures result == st.description
+//@   modifies nothing
+
+//@ func (st pmtStreamType) IsStreamWherePresentationLagsEbp() bool
+//@   props C20
+//@   ensures result == st.presentationLagsEbp
+//@   modifies nothing
+
+//@ func (st pmtStreamType) IsAudioContent() bool
+//@   props C20
+//@   ensures result == (st.code == 0x0f || st.code == 0x81 || st.code == 0x87)
+//@   modifies nothing
+
+//@ func (st pmtStreamType) IsVideoContent() bool
+//@   props C20
+//@   ensures result == (st.code == 0x02 || st.code == 0x1b || st.code == 0x24)
+//@   modifies nothing
+
+//@ func (st pmtStreamType) IsSCTE35Content() bool
+//@   props C20
+//@   ensures result == (st.code == 0x86)
+//@   modifies nothing
+
+//@ func (st pmtStreamType) IsID3Content() bool
+//@   props C20
+//@   ensures result == (st.code == 0x15)
+//@   modifies nothing
+
+//@ func (st pmtStreamType) IsPrivateContent() bool
+//@   props C20
+//@   ensures result == (st.code == 0x06)
+//@   modifies nothing
+
+// For each of the 256 codes: the lookup returns that code, and the predicates hold exactly for
+// the codes the standards assign (lemma over the contracts above).
+func lemmaStreamTypes(code uint8) bool {
+	t := LookupPmtStreamType(code)
+	return t.StreamType() == code && len(t.StreamTypeDescription()) > 0 &&
+		t.IsAudioContent() == (code == 0x0f || code == 0x81 || code == 0x87) &&
+		t.IsVideoContent() == (code == 0x02 || code == 0x1b || code == 0x24) &&
+		t.IsSCTE35Content() == (code == 0x86) &&
+		t.IsID3Content() == (code == 0x15) &&
+		t.IsPrivateContent() == (code == 0x06) &&
+		t.IsStreamWherePresentationLagsEbp() == specLagsEbp(code)
+}
+
+//@ func lemmaStreamTypes(code uint8) bool
+//@   props C20
+//@   ensures result
+//@   modifies nothing
+
+// ---- descriptor decoders
+
+//@ func NewPmtDescriptor(tag uint8, data []byte) PmtDescriptor
+//@   props C20
+//@   ensures descOf(result) != nil && fresh(descOf(result)) && descOf(result).tag == tag && len(descOf(result).data) == len(data) && (len(data) > 0 ==> &descOf(result).data[0] == &data[0])
+//@   modifies nothing
+
+func descOf(d PmtDescriptor) *pmtDescriptor {
+	p, _ := d.(*pmtDescriptor)
+	return p
+}
+
+//@ func (descriptor *pmtDescriptor) Tag() uint8
+//@   props C20
+//@   requires descriptor != nil
+//@   ensures result == descriptor.tag
+//@   modifies nothing
+
+//@ func (descriptor *pmtDescriptor) IsIso639LanguageDescriptor() bool
+//@   props C20
+//@   requires descriptor != nil
+//@   ensures result == (descriptor.tag == 10)
+//@   modifies nothing
+
+//@ func (descriptor *pmtDescriptor) IsMaximumBitrateDescriptor() bool
+//@   props C20
+//@   requires descriptor != nil
+//@   ensures result == (descriptor.tag == 14)
+//@   modifies nothing
+
+//@ func (descriptor *pmtDescriptor) IsEBPDescriptor() bool
+//@   props C20
+//@   requires descriptor != nil
+//@   ensures result == (descriptor.tag == 233)
+//@   modifies nothing
+
+//@ func (descriptor *pmtDescriptor) IsTTMLSubtitlingDescriptor() bool
+//@   props C20
+//@   requires descriptor != nil
+//@   ensures result == (descriptor.tag == 127)
+//@   modifies nothing
+
+//@ func (descriptor *pmtDescriptor) IsTTMLDescTagExtension() bool
+//@   props C20
+//@   requires descriptor != nil
+//@   ensures result == (len(descriptor.data) >= 1 && descriptor.data[0] == 32)
+//@   modifies nothing
+
+// maximum_bitrate: 2 reserved bits, 22-bit value in units of 50 bytes/second (the decoder keeps 21 bits).
+//@ func (descriptor *pmtDescriptor) DecodeMaximumBitRate() uint32
+//@   props C20
+//@   requires descriptor != nil && (descriptor.tag == 14 ==> len(descriptor.data) >= 3)
+//@   ensures descriptor.tag == 14 ==> result == uint32(descriptor.data[0]%32)*65536+uint32(descriptor.data[1])*256+uint32(descriptor.data[2])
+//@   ensures descriptor.tag != 14 ==> result == 0
+//@   modifies nothing
+
+//@ func (descriptor *pmtDescriptor) DecodeIso639LanguageCode() string
+//@   props C20
+//@   requires descriptor != nil && (descriptor.tag == 10 ==> len(descriptor.data) >= 3)
+//@   ensures descriptor.tag == 10 ==> len(result) == 3 && result[0] == descriptor.data[0] && result[1] == descriptor.data[1] && result[2] == descriptor.data[2]
+//@   ensures descriptor.tag != 10 ==> len(result) == 0
+//@   modifies nothing
+
+//@ func (descriptor *pmtDescriptor) DecodeIso639AudioType() byte
+//@   props C20
+//@   requires descriptor != nil
+//@   ensures descriptor.tag == 10 && len(descriptor.data) >= 4 ==> result == descriptor.data[3]
+//@   ensures descriptor.tag != 10 ==> result == 0
+//@   modifies nothing
+
+//@ func (descriptor *pmtDescriptor) DecodeTTMLIso639LanguageCode() string
+//@   props C20
+//@   requires descriptor != nil
+//@   ensures descriptor.tag == 127 && len(descriptor.data) >= 4 ==> len(result) == 3 && result[0] == descriptor.data[1] && result[1] == descriptor.data[2] && result[2] == descriptor.data[3]
+//@   ensures descriptor.tag != 127 ==> len(result) == 0
+//@   modifies nothing
+
+//@ func (descriptor *pmtDescriptor) DecodeTTMLSubtitlePurpose() uint8
+//@   props C20
+//@   requires descriptor != nil
+//@   ensures descriptor.tag == 127 && len(descriptor.data) >= 5 ==> result == descriptor.data[4]/4
+//@   ensures descriptor.tag != 127 ==> result == 0xff
+//@   modifies nothing
+
+//@ func (descriptor *pmtDescriptor) IsDolbyVision() bool
+//@   props C20
+//@   requires descriptor != nil
+//@   ensures result == (descriptor.tag == 5 && len(descriptor.data) >= 4 && descriptor.data[0] == 'D' && descriptor.data[1] == 'O' && descriptor.data[2] == 'V' && descriptor.data[3] == 'I')
+//@   modifies nothing
+
+var _ = gots.ErrNoPayload
